@@ -6,7 +6,7 @@ import re
 
 from .. import efg as _efg
 from ..pyfacts import AnalysisError, src, parent
-from ..genfacts import GenFacts, GEN, STDLIB
+from ..genfacts import new_codegen, GenFacts, GEN, STDLIB
 from ..asmtext import AsmText, parse_offset, STORES, STORES_OFF
 from ..report import Remap
 from .. import forms as F
@@ -60,44 +60,7 @@ def run(repo, chk):
                                'the frame model may only be moved by the allocator functions (or by the paired '
                                'static-size accounting around array-literal elements)', GEN, n.lineno)
     chk.floor('assignments to self.stack', n_assign, 6)
-    # reserve_byte / reserve_word, interpreted at every word size from several starting frames: the frame model grows by
-    # exactly the slot size, the new static size is reported to the checkpoint tracker before the accessor is handed
-    # out, and the accessor is the new slot [fp - offset] in the state section with the slot's width
-    ns = gf.module_ns()
-    asmv = ns['asm']
-
-    class _Rec:
-        def __init__(self):
-            self.calls = []
-
-        def update(self, v):
-            self.calls.append(v)
-    for fname, width, acc_cls in (('reserve_byte', lambda ws: 1, 'IndirectByte'), ('reserve_word', lambda ws: ws, 'Indirect')):
-        bad = None
-        try:
-            for ws in (2, 3, 4, 8):
-                for start in (0, 1, ws, 3 * ws + 1):
-                    g = object.__new__(ns['CodeGen'])
-                    g.word_size = ws
-                    g.stack = ns['StackPoint']().add(offset=start)
-                    g.checkpoints = _Rec()
-                    before = g.stack
-                    b = getattr(g, fname)()
-                    acc = b.value
-                    ok = g.stack.offset == start + width(ws) and g.checkpoints.calls == [g.stack.static_size] and \
-                        b.prev == before and b.cur == g.stack and type(acc).__name__ == acc_cls and \
-                        acc.section == asmv.Section.STATE and acc.base == asmv.State(ns['CodeGen'].fp) and \
-                        getattr(acc.offset, 'data', None) == -(start + width(ws))
-                    if not ok:
-                        bad = (f'word size {ws}, frame offset {start}: new offset {g.stack.offset} (expected {start + width(ws)}), '
-                               f'tracker told {g.checkpoints.calls} (expected [{g.stack.static_size}]), accessor {acc!r}')
-                        break
-                if bad:
-                    break
-        except Exception as e:      # noqa: BLE001
-            bad = f'{type(e).__name__}: {e}'
-        chk.expect(bad is None, 'C04.A1', f'{fname}::growth recorded', bad or 'self.stack advanced by the slot size, recorded with '
-                   'checkpoints.update(static_size), accessor = [fp - new offset] in state', GEN)
+    _reserve_slots(repo, chk, gf)
     for p in gf.paths('create_new_stack_array'):
         ev = p.events
         conds = _efg.Conds(ev)
@@ -297,6 +260,47 @@ def _bookkeeping(repo, chk, rule='C04.A1'):
         except ValueError:
             pass
     chk.expect(Bu(pts[1], pts[1]).vacuous and bad is None, rule, 'Bubble arithmetic', bad or 'differences of the two stack points; + only for adjacent bubbles', GEN)
+
+
+def _reserve_slots(repo, chk, gf):
+    # reserve_byte / reserve_word, interpreted at every word size from several starting frames: the frame model grows by
+    # exactly the slot size, the new static size is reported to the checkpoint tracker before the accessor is handed
+    # out, and the accessor is the new slot [fp - offset] in the state section with the slot's width
+    ns = gf.module_ns()
+    asmv = ns['asm']
+
+    class _Rec:
+        def __init__(self):
+            self.calls = []
+
+        def update(self, v):
+            self.calls.append(v)
+    for fname, width, acc_cls in (('reserve_byte', lambda ws: 1, 'IndirectByte'), ('reserve_word', lambda ws: ws, 'Indirect')):
+        bad = None
+        try:
+            for ws in (2, 3, 4, 8):
+                for start in (0, 1, ws, 3 * ws + 1):
+                    g = new_codegen(ns['CodeGen'])
+                    g.word_size = ws
+                    g.stack = ns['StackPoint']().add(offset=start)
+                    g.checkpoints = _Rec()
+                    before = g.stack
+                    b = getattr(g, fname)()
+                    acc = b.value
+                    ok = g.stack.offset == start + width(ws) and g.checkpoints.calls == [g.stack.static_size] and \
+                        b.prev == before and b.cur == g.stack and type(acc).__name__ == acc_cls and \
+                        acc.section == asmv.Section.STATE and acc.base == asmv.State(ns['CodeGen'].fp) and \
+                        getattr(acc.offset, 'data', None) == -(start + width(ws))
+                    if not ok:
+                        bad = (f'word size {ws}, frame offset {start}: new offset {g.stack.offset} (expected {start + width(ws)}), '
+                               f'tracker told {g.checkpoints.calls} (expected [{g.stack.static_size}]), accessor {acc!r}')
+                        break
+                if bad:
+                    break
+        except Exception as e:      # noqa: BLE001
+            bad = f'{type(e).__name__}: {e}'
+        chk.expect(bad is None, 'C04.A1', f'{fname}::growth recorded', bad or 'self.stack advanced by the slot size, recorded with '
+                   'checkpoints.update(static_size), accessor = [fp - new offset] in state', GEN)
 
 
 def _tracker(repo, chk):
